@@ -26,6 +26,25 @@ are calibrated from the real output for a marker-only document, by two independe
 (placeholders and default locations) that must agree.  Real classes: A (js, css, Media), B (js whose
 text contains `</head>`), C (css whose text contains `</body>`, non-ASCII), D (no assets).
 
+One thing about the blocks is this property's: "inserting the generated tags" - the texts the tags
+are generated from (Component.js -> "an inlined <script> tag", Component.css -> "an inlined <style>
+tag", Media entries given as "safe" strings, which "are taken as is") are data and arrive in the block
+byte for byte; nothing that is inserted is ever read as a replacement template / format string
+(DepsInsert: PayUnits, Carried, InsertedKinds; Trace_C08 clause `payload`).  TLC enumerates and exports
+the alphabet of carried texts: every sequence of <= MaxPay units over {`\\n` `\\d` `\\1` `\\g<0>` `\\\\`
+`\\f101` `\\201C` `\\0` `\\"` `$1` `%s` `{0}` plain}; for each one a real component class is created whose
+js, css and two safe Media tags carry it, and the abstract marker symbol "A" (a component with js, css
+and Media) is concretised as class A or as one of these classes, so they meet every document shape
+(explicit placeholders / default locations), every input type and the middleware.  The random driver
+adds classes with longer payloads (3..6 units).  Whenever a call inserts a block of a kind, every
+carried text of that kind must be a contiguous part of the block (hence of the result), and the call
+must not raise.  A calibration call that raises is reported as what it is: a call of
+render_dependencies on a document of the quantified class (markers, text, two placeholders) that fails.
+Not determined / left out: JS / CSS *variables* (get_js_data) reach the tags JSON-encoded - C04's;
+Media paths that are not safe strings go through static() / URL quoting - not verbatim; a component
+text containing `</script>` / `</style>`, or starting / ending with white space (observation: the
+inlined text is stripped) - never generated.
+
 Genuine defects of the current tree are *named deviations* of the layer-B model (DepsInsertImpl):
 a failing call is a KNOWN-FINDING only if the observed result equals, character for character, what
 the model of a tree with exactly these deviations predicts (Trace_C08 picks the smallest explaining
@@ -90,6 +109,13 @@ TXT_LATIN1 = ["café", "über ß", " ", "naïve </heads>", "ÿþ", "plain"]
 END_LC = ["</%s>", "</%s >", "</%s\n>", "</%s\t>", "</%s \r\n >", "</%s\f>"]
 END_UC = [("upper", "</%s>"), ("title", "</%s>"), ("upper", "</%s >"), ("swap", "</%s\n>")]
 
+# concrete spellings of the payload units of DepsInsert!PayUnits (the specification is symmetric in them)
+UNIT_TEXT = {"txt": "ab", "bs_n": "\\n", "bs_d": "\\d", "bs_1": "\\1", "bs_g0": "\\g<0>", "bs_bs": "\\\\", "bs_f101": "\\f101",
+             "bs_201C": "\\201C", "bs_0": "\\0", "bs_q": "\\\"", "dollar": "$1", "pct": "%s", "brace": "{0}"}
+JS_WRAP = ['console.log("%s");', "const isNum = (s) => /^%s+$/.test(s);", "var t = '%s'; /* t */", "el.textContent =\n  `%s`;"]
+CSS_WRAP = ['.icon::before{content:"%s"}', ".p::after {\n content: '%s'; }", "/* %s */ .q{color:#00f}"]
+BLOCK_OF = {"css": 0, "js": 1}
+
 KEYS = {"offset": "body-end-before-head-end:js-offset-shifted",
         "multiattr": "placeholder-multi-id-attrs:left-in-place",
         "nonutf8": "non-utf8-bytes:unicode-decode-error",
@@ -97,7 +123,9 @@ KEYS = {"offset": "body-end-before-head-end:js-offset-shifted",
 
 
 class Calibration(Exception):
-    """The generated blocks could not be isolated from a marker-only document."""
+    """The generated blocks could not be isolated from a marker-only document.  `case`: the call that
+    raised, when it was the real code that raised (a replayable call case)."""
+    case: Optional[Dict[str, Any]] = None
 
 
 # ===================================================================== the real world
@@ -192,8 +220,57 @@ class World:
                 self.unavailable.append(f"placeholder form {k}")
         if not forms[("cssph", "one")] or not forms[("jsph", "one")]:
             raise MachineryError("the placeholder tags render to nothing recognisable")
-        self._blocks: Dict[Tuple[str, ...], Tuple[str, str, str]] = {}
+        self._blocks: Dict[Tuple[str, ...], Any] = {}
         self.calib_mismatch: List[str] = []
+        # texts each class contributes verbatim to the block of a kind (the expectation is the text itself)
+        self.pay: Dict[str, List[Tuple[str, str]]] = {
+            "A": [("js", VfDepA.js), ("css", VfDepA.css)], "B": [("js", VfDepB.js)], "C": [("css", VfDepC.css)], "D": []}
+        self.family: List[str] = []          # payload classes of the bounded alphabet (from TLC)
+        self.family_long: List[str] = []     # payload classes of the random driver
+        self.marker_pool: List[str] = []     # what the abstract marker symbol "A" may be concretised as, besides A
+
+    # ---- payload classes
+    def payload_class(self, units: List[str]) -> str:
+        """A real component class whose js, css and safe Media tags carry the payload; returns its label."""
+        import zlib
+        from django.template import Context, Template
+        from django.utils.safestring import mark_safe
+        from django_components import Component, registry
+        label = "P:" + ".".join(units)
+        if label in self.classes:
+            return label
+        text = "".join(UNIT_TEXT[u] for u in units)
+        h = zlib.crc32(label.encode())
+        ident = "_".join(units) or "empty"
+        js = JS_WRAP[h % len(JS_WRAP)].replace("%s", text)
+        css = CSS_WRAP[(h >> 8) % len(CSS_WRAP)].replace("%s", text)
+        mjs = "<script src=\"/vf/p/%s.js\" data-p='%s'></script>" % (ident, text)
+        mcss = "<link href=\"/vf/p/%s.css\" data-p='%s' rel=\"stylesheet\">" % (ident, text)
+        pay = [("js", js), ("css", css)]
+        body: Dict[str, Any] = {"template": "<u>P</u>", "js": js, "css": css}
+        if (h >> 16) % 2:
+            body["Media"] = type("Media", (), {"js": [mark_safe(mjs)], "css": [mark_safe(mcss)]})
+            pay += [("js", mjs), ("css", mcss)]
+        c = type("VfDepP_" + ident, (Component,), body)
+        name = "vf_c08_p_" + ident.lower() + "_%08x" % h
+        registry.register(name, c)
+        html = Template("{% component '" + name + "' / %}").render(Context({}))
+        m = R_MARKER_FULL.search(html)
+        if not m or not m.group(1).startswith(c.__name__):
+            raise MachineryError(f"no dependency marker in the rendering of {c.__name__}: {html!r}")
+        self.marker_form[label] = html[m.start():m.start(2)] + ID_SLOT + html[m.end(2):m.end()]
+        self.classes[label] = c
+        self.pay[label] = pay
+        return label
+
+    def install_family(self, payloads: List[List[str]]) -> None:
+        self.family = [self.payload_class(list(u)) for u in payloads]
+
+    def pays(self, labels: Tuple[str, ...]) -> List[Tuple[str, str]]:
+        out: List[Tuple[str, str]] = []
+        for l in dict.fromkeys(labels):
+            out += self.pay[l]
+        return out
 
     # ---- concrete texts
     def marker(self, label: str, rid: str) -> str:
@@ -202,14 +279,29 @@ class World:
     def blocks(self, labels: Tuple[str, ...]) -> Tuple[str, str, str]:
         """(css, js, frag) generated for this marker sequence, taken from the real output."""
         if labels in self._blocks:
+            if isinstance(self._blocks[labels], Calibration):
+                raise self._blocks[labels]
             return self._blocks[labels]
         dd = self.dd
-        ms = "".join(self.marker(l, "cAL1b%d" % (i % 10)) for i, l in enumerate(labels))
+        mseg = [{"t": "marker", "v": l, "s": self.marker(l, "cAL1b%d" % (i % 10))} for i, l in enumerate(labels)]
+        ms = "".join(x["s"] for x in mseg)
         sep = "\x02"
-        cssph, jsph = self.ph_forms[("cssph", "one")][0], self.ph_forms[("jsph", "one")][0]
-        a = dd.render_dependencies(ms + sep + cssph + sep + jsph + sep).split(sep)
-        b = dd.render_dependencies(ms + sep + "</head>" + sep + "</body>" + sep).split(sep)
-        frag = dd.render_dependencies(ms, type="fragment")
+        cssph, jsph = self.ph_forms[("cssph", "one")][0].replace(ID_SLOT, "cAL1bp"), self.ph_forms[("jsph", "one")][0].replace(ID_SLOT, "cAL1bq")
+        tx = {"t": "txt", "v": "-", "s": sep}
+        docs = [("document", mseg + [tx, {"t": "cssph", "v": "one", "s": cssph}, tx, {"t": "jsph", "v": "one", "s": jsph}, tx]),
+                ("document", mseg + [tx, {"t": "head", "v": "lc", "s": "</head>"}, tx, {"t": "body", "v": "lc", "s": "</body>"}, tx]),
+                ("fragment", mseg)]
+        got: List[Any] = []
+        for mode, segs in docs:
+            try:
+                got.append(dd.render_dependencies("".join(x["s"] for x in segs), type=mode))
+            except Exception as e:  # the real code failed on a document of the quantified class
+                cal = Calibration(f"render_dependencies raised {type(e).__name__}: {str(e)[:120]} on the marker-only "
+                                  f"{mode} for markers {labels}")
+                cal.case = {"kind": "call", "segs": segs, "mode": mode, "via": "direct", "ity": "str", "enc": "utf-8", "flavour": 0}
+                self._blocks[labels] = cal
+                raise cal
+        a, b, frag = got[0].split(sep), got[1].split(sep), got[2]
         if len(a) != 4:
             raise Calibration(f"blocks not isolated for markers {labels}: {a!r}")
         css, js = a[1], a[2]
@@ -281,7 +373,11 @@ def seg_text(w: World, code: str, rnd: random.Random, style: str) -> Dict[str, s
             form = form.replace(ID_SLOT, _rid(rnd), 1)
         return {"t": kind, "v": variant, "s": form}
     if code[0] == "M":
-        return {"t": "marker", "v": code[1], "s": w.marker(code[1], _rid(rnd))}
+        label = code[1]
+        # the abstract symbol "A" (a component with js, css and Media): class A or one of the payload classes
+        if label == "A" and style != "ascii" and w.marker_pool and rnd.random() < 0.5:
+            label = rnd.choice(w.marker_pool)
+        return {"t": "marker", "v": label, "s": w.marker(label, _rid(rnd))}
     raise MachineryError(f"unknown segment code {code}")
 
 
@@ -384,6 +480,17 @@ def conforms(obs: Dict[str, Any], expected: Iterable[str], via: str, ity: str, e
     return any(out == e for e in expected)
 
 
+def not_carried(w: World, labels: Tuple[str, ...], blocks: Tuple[str, str, str]) -> set:
+    """Block kinds that lack one of the texts the classes contribute verbatim (fast filter; TLC adjudicates)."""
+    return {k for k, t in w.pays(labels) if t not in blocks[BLOCK_OF[k]]}
+
+
+def inserted_kinds(token_lists: Iterable[List[int]]) -> set:
+    """Kinds that every admissible result inserts (DepsInsert!InsertedKinds, from the exported results)."""
+    lists = list(token_lists)
+    return {k for k, tok in (("css", TOK_CSS), ("js", TOK_JS)) if lists and all(tok in t for t in lists)}
+
+
 # ---- projection to TLC strings: one character per code point (or per byte for non-UTF-8 bodies)
 class Projection:
     def __init__(self, bytewise: bool):
@@ -408,6 +515,8 @@ class Projection:
 
 
 def trace_record(w: World, tid: int, segs, mode: str, via: str, ity: str, enc: str, obs: Dict[str, Any]) -> Dict[str, Any]:
+    """The record of one call for Trace_C08.  Raises Calibration if the blocks cannot be had, unless the
+    call itself raised (then the blocks do not matter: the record fails on `raised`)."""
     text = "".join(s["s"] for s in segs)
     is_bytes = not (via == "direct" and ity != "bytes")
     utf8 = True
@@ -424,7 +533,12 @@ def trace_record(w: World, tid: int, segs, mode: str, via: str, ity: str, enc: s
         except UnicodeDecodeError:
             bytewise = True
     p = Projection(bytewise)
-    css, js, frag = w.blocks(labels_of(segs))
+    try:
+        css, js, frag = w.blocks(labels_of(segs))
+    except Calibration:
+        if obs["res"] == "ok":
+            raise
+        css, js, frag = "", "", ""
 
     def seg_s(s: str) -> str:
         # a latin-1 body: the bytes of a segment are its text encoded in latin-1
@@ -436,6 +550,7 @@ def trace_record(w: World, tid: int, segs, mode: str, via: str, ity: str, enc: s
            "cssb": [m.start() for m in re.finditer(r"</body\s*>", p.s(css))],
            "res": obs["res"], "oty": obs["oty"], "same": bool(obs["same"]), "utf8": utf8,
            "out": "" if out is None else p.s(out) if isinstance(out, (str, bytes)) else repr(out)}
+    rec["pay"] = [{"k": k, "s": p.s(t), "at": rec[k].find(p.s(t))} for k, t in w.pays(labels_of(segs))]
     return rec
 
 
@@ -497,7 +612,7 @@ def replay_rows(args) -> Dict[str, Any]:
     """Worker: replay a slice of exported documents on the real code."""
     rows, base, seed, rounds = args
     w = World.get()
-    res = {"n": 0, "digests": [], "trivial": 0, "mismatch": [], "samples": [], "calib": []}
+    res = {"n": 0, "digests": [], "trivial": 0, "mismatch": [], "samples": [], "calib": [], "pay_calls": 0}
     for k, row in enumerate(rows):
         codes = row["doc"]
         trivial = all(c == "T" for c in codes)
@@ -508,8 +623,11 @@ def replay_rows(args) -> Dict[str, Any]:
             try:
                 blocks = w.blocks(labels_of(segs))
             except Calibration as e:
-                res["calib"].append(str(e))
+                res["calib"].append((str(e), e.case))
                 continue
+            lost = not_carried(w, labels_of(segs), blocks)
+            need = inserted_kinds(row["document"]) & lost if lost else set()
+            res["pay_calls"] += int(any(l.startswith("P:") for l in labels_of(segs)))
             exp = {"document": {join_tokens(t, segs, blocks) for t in row["document"]},
                    "fragment": {join_tokens(t, segs, blocks) for t in row["fragment"]},
                    "pass": {join_tokens(row["pass"], segs, blocks)}}
@@ -522,7 +640,8 @@ def replay_rows(args) -> Dict[str, Any]:
                     res["trivial"] += 1
                 else:
                     res["digests"].append(f"{'.'.join(codes)}|{rd}|{mode}|{via}|{ity}")
-                if not conforms(obs, e, via, ity, "utf-8"):
+                if not conforms(obs, e, via, ity, "utf-8") or \
+                        (need and obs["res"] == "ok" and (via == "mw_html" or (via == "direct" and mode == "document"))):
                     res["mismatch"].append({"segs": segs, "mode": mode, "via": via, "ity": ity, "enc": "utf-8",
                                             "flavour": flavour, "codes": codes})
                 elif len(res["samples"]) < 2 and not trivial and rd == 1 and j == 0:
@@ -531,15 +650,18 @@ def replay_rows(args) -> Dict[str, Any]:
     return res
 
 
-def mc_cfg(path, maxlen: int, export: bool, refine: bool = True) -> None:
+MAX_PAY = 2      # longest carried text of the exhaustive alphabet, in units (1 + 13 + 169 payloads)
+
+
+def mc_cfg(path, maxlen: int, export: bool, refine: bool = True, maxpay: int = MAX_PAY) -> None:
     inv = ["Thm_OnlyDocumentedEdits", "Thm_InsertionsDocumented", "Thm_PlaceholderEquivalence", "Thm_ZoneIsNarrow",
-           "Thm_PassThrough"]
+           "Thm_PassThrough", "Thm_PayloadSitesDocumented"]
     if refine:
-        inv += ["FixedRefines", "RefinesExactlyOutsideDeviations"]
+        inv += ["FixedRefines", "RefinesExactlyOutsideDeviations", "Thm_BlocksContiguous"]
     if export:
-        inv.append("Export")
-    path.write_text("SPECIFICATION MCSpec\nCONSTANTS\n  MaxLen = %d\n  PhVariants = %s\n%s\n" % (
-        maxlen, '{"one"}' if export else '{"one", "multi"}', "\n".join("INVARIANT " + i for i in inv)))
+        inv += ["ExportPayloads", "Export"]
+    path.write_text("SPECIFICATION MCSpec\nCONSTANTS\n  MaxLen = %d\n  MaxPay = %d\n  PhVariants = %s\n%s\n" % (
+        maxlen, maxpay, '{"one"}' if export else '{"one", "multi"}', "\n".join("INVARIANT " + i for i in inv)))
 
 
 def adjudicate(chk: Check, w: World, mism: List[Dict[str, Any]], what: str) -> None:
@@ -548,10 +670,17 @@ def adjudicate(chk: Check, w: World, mism: List[Dict[str, Any]], what: str) -> N
         return
     if chk.silent:
         mism = mism[:400]          # probes: a sample is enough to decide killed / survived
-    recs = []
-    for i, m in enumerate(mism):
+    recs, kept = [], []
+    for m in mism:
         obs = observe(w, m["segs"], m["mode"], m["via"], m["ity"], m["enc"], m["flavour"])
-        recs.append(trace_record(w, i + 1, m["segs"], m["mode"], m["via"], m["ity"], m["enc"], obs))
+        try:
+            recs.append(trace_record(w, len(recs) + 1, m["segs"], m["mode"], m["via"], m["ity"], m["enc"], obs))
+            kept.append(m)
+        except Calibration as e:
+            calibration_failed(chk, w, e)
+    mism = kept
+    if not recs:
+        return
     verdicts, _ = tlc_validate(recs, what)
     for i, m in enumerate(mism):
         kind, info = verdicts[i + 1]
@@ -568,7 +697,60 @@ def adjudicate(chk: Check, w: World, mism: List[Dict[str, Any]], what: str) -> N
         chk.violation(case, detail, key=info if kind == "DEV" else None)
 
 
+def calibration_failed(chk: Check, w: World, e: Calibration, seen: Optional[set] = None) -> None:
+    """The blocks could not be had.  If the real code raised on the calibration document, that call is the
+    failing case (adjudicated by TLC like any other call); otherwise the old calibration violation."""
+    if seen is not None:
+        if str(e) in seen:
+            return
+        seen.add(str(e))
+    case = e.case
+    if case is None:
+        chk.violation({"kind": "calibration"}, str(e))
+        return
+    obs = observe(w, case["segs"], case["mode"], case["via"], case["ity"], case["enc"], case["flavour"])
+    if obs["res"] == "ok":
+        raise MachineryError(f"calibration call raised once and not again: {e}")
+    rec = trace_record(w, 1, case["segs"], case["mode"], case["via"], case["ity"], case["enc"], obs)
+    verdicts, _ = tlc_validate([rec], "calibration call")
+    kind, info = verdicts[1]
+    if kind == "ACCEPT":
+        raise MachineryError(f"TLC accepts a call that raised: {e}")
+    chk.add("mismatches_adjudicated_by_tlc")
+    chk.violation(case, {"verdict": kind, "info": info, "input": "".join(x["s"] for x in case["segs"]),
+                         "observed": rec["res"], "observed_detail": obs.get("detail"), "observed_type": rec["oty"]},
+                  key=info if kind == "DEV" else None)
+
+
 _EXPORTS: Dict[int, Tuple[List[Dict[str, Any]], int, int]] = {}
+_PAYLOADS: Dict[int, List[List[str]]] = {}
+
+
+def _read_payloads(path, maxpay: int) -> List[List[str]]:
+    rows = tlc.read_ndjson(path)
+    if len(rows) != 1 or not rows[0].get("payloads"):
+        raise MachineryError(f"payload alphabet not exported: {rows!r:.200}")
+    out = []
+    for r in rows[0]["payloads"]:
+        if r["carried"] != r["units"] or any(u not in UNIT_TEXT for u in r["units"]):
+            # the specification carries every payload as it is; anything else here is a harness/spec mismatch
+            raise MachineryError(f"payload row the harness cannot concretise: {r}")
+        out.append(list(r["units"]))
+    out.sort(key=lambda u: (len(u), u))
+    if len(out) != sum(len(UNIT_TEXT) ** k for k in range(maxpay + 1)):
+        raise MachineryError(f"payload alphabet incomplete: {len(out)} rows")
+    return out
+
+
+def payload_alphabet(maxpay: int = MAX_PAY) -> List[List[str]]:
+    """Every carried text of <= maxpay units, from TLC (a run on the empty document if no export has run yet)."""
+    if maxpay not in _PAYLOADS:
+        wd = workdir("c08pay")
+        cfg, out, pay = wd / "pay.cfg", wd / "docs.ndjson", wd / "pay.ndjson"
+        mc_cfg(cfg, 0, export=True, refine=False, maxpay=maxpay)
+        tlc.require_ok(tlc.run("MC_C08", str(cfg), workers=1, env={"OUT": str(out), "PAY": str(pay)}), "MC_C08 payload export")
+        _PAYLOADS[maxpay] = _read_payloads(pay, maxpay)
+    return _PAYLOADS[maxpay]
 
 
 def refinement(chk: Check, maxlen: int, workers: int) -> None:
@@ -587,9 +769,10 @@ def export_docs(maxlen: int) -> Tuple[List[Dict[str, Any]], int, int]:
     """Every document of <= maxlen segments with its admissible results, from TLC."""
     if maxlen not in _EXPORTS:
         wd = workdir("c08mc")
-        cfg, out = wd / "export.cfg", wd / "docs.ndjson"
+        cfg, out, pay = wd / "export.cfg", wd / "docs.ndjson", wd / "pay.ndjson"
         mc_cfg(cfg, maxlen, export=True, refine=False)
-        r = tlc.require_ok(tlc.run("MC_C08", str(cfg), workers=1, env={"OUT": str(out)}), "MC_C08 export")
+        r = tlc.require_ok(tlc.run("MC_C08", str(cfg), workers=1, env={"OUT": str(out), "PAY": str(pay)}), "MC_C08 export")
+        _PAYLOADS.setdefault(MAX_PAY, _read_payloads(pay, MAX_PAY))
         rows = tlc.read_ndjson(out)
         if len(rows) != r.distinct:
             raise MachineryError(f"export incomplete: {len(rows)} rows for {r.distinct} states")
@@ -603,12 +786,15 @@ def model_check_and_replay(chk: Check, maxlen: int, rounds: int, procs: int) -> 
     chk.add("states", distinct)
     chk.add("transitions", generated)
     chk.cov["documents_exported"] = len(rows)
-    # warm the calibration cache before forking (all marker sequences that occur)
+    w.install_family(payload_alphabet())
+    w.marker_pool = list(w.family)
+    chk.cov["payload_classes_exhaustive"] = len(w.family)
+    # warm the calibration cache before forking (all marker sequences of the plain classes that occur)
     try:
         for row in rows:
             w.blocks(tuple(c[1] for c in row["doc"] if c[0] == "M"))
     except Calibration as e:
-        chk.violation({"kind": "calibration"}, str(e))
+        calibration_failed(chk, w, e)
         return
     size = max(50, len(rows) // (procs * 6) + 1)
     jobs = [(rows[i:i + size], i, chk.seed, rounds) for i in range(0, len(rows), size)]
@@ -626,9 +812,15 @@ def model_check_and_replay(chk: Check, maxlen: int, rounds: int, procs: int) -> 
         mism += res["mismatch"]
         for smp in res["samples"]:
             chk.sample({"replayed": smp}, limit=4)
-        for c in res["calib"]:
-            chk.violation({"kind": "calibration"}, c)
+    seen: set = set()
+    for res in results:
+        for msg, case in res["calib"]:
+            if len(seen) < (3 if chk.silent else 30):
+                cal = Calibration(msg)
+                cal.case = case
+                calibration_failed(chk, w, cal, seen)
     chk.add("calls_replayed", sum(x["n"] for x in results))
+    chk.add("concretisations_with_payload_classes", sum(x["pay_calls"] for x in results))
     adjudicate(chk, w, mism, "replay mismatches")
 
 
@@ -660,6 +852,14 @@ def record_random(w: World, rnd: random.Random, tid: int) -> Tuple[Dict[str, Any
         enc, style = "latin-1", "latin1"
     segs = concretise(w, codes, rnd, style)
     flavour = rnd.randrange(12)
+    try:
+        w.blocks(labels_of(segs))
+    except Calibration as e:
+        if e.case is None:
+            raise
+        # the calibration call raised: that call is the recorded one (a document of the quantified class)
+        c = e.case
+        segs, mode, via, ity, enc, flavour = c["segs"], c["mode"], c["via"], c["ity"], c["enc"], c["flavour"]
     obs = observe(w, segs, mode, via, ity, enc, flavour)
     rec = trace_record(w, tid, segs, mode, via, ity, enc, obs)
     case = {"kind": "call", "segs": segs, "mode": mode, "via": via, "ity": ity, "enc": enc, "flavour": flavour}
@@ -669,6 +869,12 @@ def record_random(w: World, rnd: random.Random, tid: int) -> Tuple[Dict[str, Any
 def validate_random(chk: Check, n: int) -> None:
     w = World.get()
     rnd = random.Random(chk.seed * 6151 + 8)
+    # beyond the exhaustive bound: payload classes with longer carried texts
+    units = sorted(UNIT_TEXT)
+    w.install_family(payload_alphabet())
+    w.family_long = [w.payload_class([rnd.choice(units) for _ in range(rnd.randint(MAX_PAY + 1, 6))]) for _ in range(max(12, n // 60))]
+    w.marker_pool = w.family + w.family_long * 3
+    chk.cov["payload_classes_random"] = len(set(w.family_long))
     recs, cases = [], []
     try:
         for i in range(n):
@@ -676,7 +882,7 @@ def validate_random(chk: Check, n: int) -> None:
             recs.append(rec)
             cases.append(case)
     except Calibration as e:
-        chk.violation({"kind": "calibration"}, str(e))
+        calibration_failed(chk, w, e)
         return
     verdicts, states = tlc_validate(recs, "random traces")
     chk.add("trace_states", states)
@@ -696,6 +902,8 @@ def validate_random(chk: Check, n: int) -> None:
             chk.add("dev:" + info)
         chk.violation(case, detail, key=info if kind == "DEV" else None)
     chk.add("traces_validated_against_impl", len(recs))
+    chk.add("traces_document_mode_with_carried_texts", sum(1 for r in recs if r["pay"] and r["res"] == "ok" and r["mode"] == "document"
+                                                      and r["via"] in ("direct", "mw_html")))
     chk.cov["longest_random_document_segments"] = max(longest, chk.cov.get("longest_random_document_segments", 0))
     for rec in recs[3:60:19]:
         chk.sample({"validated_trace": {k: rec[k] for k in ("mode", "via", "ity", "res", "oty")},
@@ -752,7 +960,11 @@ def run(tier: str) -> int:
                        "DepsInsert on each; layer B vs A on an 11-symbol alphabet with both placeholder variants); "
                        "every exported document is concretised `rounds` times and run through render_dependencies "
                        "(str/bytes/SafeString x document, fragment) and the middleware (html, non-html/streaming); "
-                       "random documents <= 16 segments validated by Trace_C08 on the real strings. Non-trivial = the "
+                       "the marker symbol A is concretised as class A or as one of the payload classes made from the "
+                       "TLC-exported alphabet of carried texts (every sequence of <= 2 units over 13 units: backslash "
+                       "escapes, group references, $1 %s {0}, plain), whose js / css / safe Media tags must be in the "
+                       "inserted block byte for byte; "
+                       "random documents <= 16 segments (payloads <= 6 units) validated by Trace_C08 on the real strings. Non-trivial = the "
                        "document contains at least one end tag, placeholder or marker; distinct = abstract document x "
                        "round x entry point (replay) or hash of the concrete case (traces)")
     chk.assumptions += [
@@ -760,6 +972,8 @@ def run(tier: str) -> int:
         "calibrated from the real output of a marker-only document; their content is C04's business)",
         "recognition of end tags is either case-sensitive or case-insensitive as a whole (zone: both admitted)",
         "bytes inputs are compared per code point when they are valid UTF-8 and per byte otherwise",
+        "the texts a class contributes verbatim are its Component.js, Component.css and its Media entries given as safe "
+        "strings (docs: inlined <script> / <style> tag; safe strings are taken as is); the rest of a block is opaque",
     ]
     return chk.finish()
 
@@ -838,8 +1052,26 @@ def selftest(tier: str) -> int:
         rec, case = record_random(w, rnd, len(recs) + 1)
         if rec["res"] != "ok":
             continue
-        k = len(recs) % 5
-        if k == 1:
+        k = len(recs) % 6
+        if k == 5:
+            # a carried text whose escapes were processed on the way into the block (block and result alike)
+            cand = [(x["k"], x["s"]) for x in rec["pay"] if "\\" in x["s"] and x["at"] >= 0]
+            done = False
+            for kk, t in cand:
+                blk = rec[kk]
+                new = blk.replace(t, t.replace("\\", ""))
+                if rec["mode"] == "document" and rec["via"] in ("direct", "mw_html") and blk and rec["out"].count(blk) >= 1 \
+                        and not any(sg["t"] in ("head", "body") and sg["v"] == "uc" for sg in rec["segs"]):
+                    rec["out"] = rec["out"].replace(blk, new)
+                    rec[kk] = new
+                    for x in rec["pay"]:
+                        x["at"] = rec[x["k"]].find(x["s"])
+                    done = True
+                    break
+            if not done:
+                continue
+            want[rec["id"]] = "payload"
+        elif k == 1:
             pos = rnd.randrange(len(rec["out"]) + 1)
             rec["out"] = rec["out"][:pos] + "~" + rec["out"][pos:]
             want[rec["id"]] = "bytes"
@@ -985,7 +1217,25 @@ def selftest(tier: str) -> int:
 
         def __getattr__(self, name):
             return getattr(self.rx, name)
+    class SubTemplate:
+        """PLACEHOLDER_REGEX whose sub() uses what the callback returns as a replacement *template*
+        (what `rx.sub(block, content)` does: escapes and group references in the block are processed)."""
+        def __init__(self, rx, how):
+            self.rx, self.pattern, self.how = rx, rx.pattern, how
+
+        def sub(self, fn, content):
+            if self.how == "expand":
+                return self.rx.sub(lambda m: m.expand(fn(m)), content)
+            if self.how == "dollar":
+                return self.rx.sub(lambda m: re.sub(rb"\$(\d)", lambda d: m[0] if d[1] == b"0" else b"", fn(m)), content)
+            return self.rx.sub(lambda m: fn(m).replace(b"%s", b"%").replace(b"{0}", b""), content)
+
+        def __getattr__(self, name):
+            return getattr(self.rx, name)
     probes = [
+        ("placeholder-sub-block-as-re-template", lambda: patch(dd, "PLACEHOLDER_REGEX", SubTemplate(dd.PLACEHOLDER_REGEX, "expand"))),
+        ("placeholder-sub-block-as-dollar-template", lambda: patch(dd, "PLACEHOLDER_REGEX", SubTemplate(dd.PLACEHOLDER_REGEX, "dollar"))),
+        ("placeholder-sub-block-as-format-string", lambda: patch(dd, "PLACEHOLDER_REGEX", SubTemplate(dd.PLACEHOLDER_REGEX, "format"))),
         ("css-before-LAST-head", insert_variant(pick_head="last")),
         ("js-before-FIRST-body", insert_variant(pick_body="first")),
         ("css-AFTER-head-end-tag", insert_variant(where="after")),
@@ -1084,8 +1334,19 @@ def replay(path: str) -> int:
         print("not a replayable call case (calibration failures: re-run the check)")
         return 2
     w = World.get()
+    for sg in case["segs"]:
+        if sg["t"] == "marker" and sg["v"].startswith("P:"):
+            w.payload_class([u for u in sg["v"][2:].split(".") if u])
     obs = observe(w, case["segs"], case["mode"], case["via"], case["ity"], case["enc"], case["flavour"])
-    rec = trace_record(w, 1, case["segs"], case["mode"], case["via"], case["ity"], case["enc"], obs)
+    try:
+        rec = trace_record(w, 1, case["segs"], case["mode"], case["via"], case["ity"], case["enc"], obs)
+    except Calibration as e:
+        print(f"the call returns, but the blocks for its markers cannot be calibrated: {e}")
+        if e.case is None:
+            return 1
+        case = e.case
+        obs = observe(w, case["segs"], case["mode"], case["via"], case["ity"], case["enc"], case["flavour"])
+        rec = trace_record(w, 1, case["segs"], case["mode"], case["via"], case["ity"], case["enc"], obs)
     verdicts, _ = tlc_validate([rec], "replay")
     kind, info = verdicts[1]
     print(json.dumps({"input": "".join(s["s"] for s in case["segs"]), "mode": case["mode"], "via": case["via"],
